@@ -13,6 +13,7 @@ from symex import values as V
 from vlib.api import all_of, harness, truth
 
 from . import e2e, refs
+from .world import ScalarOutOfRange  # noqa
 from .world import Algebra, World, lookup, seq_eq
 
 META = dict(assumptions=[
@@ -104,7 +105,7 @@ def _env(hash_name, secret_alg, secret_params, priv_len, pub_len, flags, l2key):
                                   "d.t", "f.t", b"", l2key)
 
 
-@harness(P, params=[dict(hash_name=h) for h in HASHES], bounds="nonce mode, 4 hashes: 64 symbolic L2-seed bytes, 32-byte nonce from the RNG", must_reach=("nonce: both sides agree", "nonce: KDF parameters"))
+@harness(P, per_job=True, params=[dict(hash_name=h) for h in HASHES], bounds="nonce mode, 4 hashes: 64 symbolic L2-seed bytes, 32-byte nonce from the RNG", must_reach=("nonce: both sides agree", "nonce: KDF parameters"))
 def nonce_mode(c, hash_name):
     w, cap = _setup(c)
     seed = c.bytes("l2seed", 64)
@@ -128,7 +129,7 @@ def _dh_params(tier):
     return out
 
 
-@harness(P, params=_dh_params, max_steps=400000,
+@harness(P, per_job=True, params=_dh_params, max_steps=400000,
          bounds="DH: field order p, generator g symbolic in [0, 2^(8*key_length)) for key_length in {1,2,256} quick / {1,2,3,4,32,256} thorough (small groups make values with leading zero "
          "bytes the majority; at key_length 256 p and g are the RFC 5114 group), private key length 8..512 bits incl. a non-multiple of 8, L2 seed and ephemeral key symbolic",
          outside="other key lengths", must_reach=("dh: both sides agree", "dh: KDF parameters and fixed-width shared secret", "dh: public values are fixed width"))
@@ -190,7 +191,7 @@ def _ec_params(tier):
     return [dict(hash_name=h, curve=cv) for h in (["SHA256", "SHA384"] if tier == "quick" else HASHES) for cv in ("P256", "P384")]
 
 
-@harness(P, params=_ec_params, max_steps=400000, raises=(ValueError,),
+@harness(P, per_job=True, params=_ec_params, max_steps=400000, raises=(ScalarOutOfRange,),
          bounds="ECDH P256 / P384: peer point and ephemeral point are algebra elements with symbolic coordinates in [0, 2^bits) (every leading-zero pattern), L2 seed and ephemeral "
          "private key symbolic (an ephemeral scalar outside [1, n-1] makes the EC library raise ValueError: allowed)", outside="P521", must_reach=("ecdh: both sides agree", "ecdh: KDF parameters and fixed-width shared secret", "ecdh: coordinates are fixed width"))
 def ecdh_mode(c, hash_name, curve):
